@@ -4,9 +4,11 @@
 package imgen
 
 import (
+	"encoding/base64"
 	"encoding/json"
 	"fmt"
 	"sort"
+	"strings"
 
 	"verifharness/lib"
 	"verifharness/memreg"
@@ -32,12 +34,16 @@ type Node struct {
 	Children []*Node // referenced manifests (index) or blobs (image/artifact: config first)
 	Subject  *Node
 	Foreign  map[int]bool // child positions that are foreign layers (have urls): not hosted
+	Inline   bool         // every descriptor of this node carries the content in its data field
 }
 
 type Graph struct {
 	Nodes []*Node
 	Root  *Node
 	Refs  []*Node // artifacts whose subject is in the graph (referrers)
+	// Inline: percentage of descriptors of small content (<= 96 bytes) that carry the content in their data field
+	Inline int
+	rnd    *lib.Rand
 }
 
 type desc struct {
@@ -48,15 +54,22 @@ type desc struct {
 	Platform     map[string]string `json:"platform,omitempty"`
 	Annotations  map[string]string `json:"annotations,omitempty"`
 	ArtifactType string            `json:"artifactType,omitempty"`
+	Data         []byte            `json:"data,omitempty"`
 }
 
 func (g *Graph) add(n *Node) *Node {
 	n.ID = len(g.Nodes)
 	n.Digest = memreg.Digest("sha256", n.Body)
+	if n.Kind != "blob" {
+		n.Digest = memreg.ManifestDigest("sha256", n.Body) // a signed schema1 manifest is named by its payload
+	}
 	for _, o := range g.Nodes { // content addressed: identical bodies are the same node
 		if o.Digest == n.Digest {
 			return o
 		}
+	}
+	if n.Kind == "blob" && g.Inline > 0 && g.rnd != nil && len(n.Body) > 0 && len(n.Body) <= 96 && g.rnd.Chance(g.Inline) {
+		n.Inline = true
 	}
 	g.Nodes = append(g.Nodes, n)
 	return n
@@ -66,6 +79,61 @@ func (g *Graph) Blob(data []byte, mt string) *Node {
 }
 func d(n *Node) desc { return desc{MediaType: n.MT, Digest: n.Digest, Size: len(n.Body)} }
 
+// dd: the descriptor of n as the graph writes it - with the content inline for some small nodes
+func (g *Graph) dd(n *Node) desc {
+	x := d(n)
+	if n.Inline {
+		x.Data = n.Body
+	}
+	return x
+}
+
+const (
+	MTArtifact = "application/vnd.oci.artifact.manifest.v1+json"
+	MTSchema1  = "application/vnd.docker.distribution.manifest.v1+json"
+	MTSchema1S = "application/vnd.docker.distribution.manifest.v1+prettyjws"
+)
+
+// Artifact builds an OCI artifact manifest (the media type removed from image-spec 1.1, still accepted by the client)
+func (g *Graph) Artifact(blobs []*Node, subject *Node, note string) *Node {
+	bs := []desc{}
+	for _, b := range blobs {
+		bs = append(bs, g.dd(b))
+	}
+	m := map[string]any{"mediaType": MTArtifact, "artifactType": "application/vnd.example.sbom", "blobs": bs, "annotations": map[string]string{"note": note}}
+	if subject != nil {
+		m["subject"] = d(subject)
+	}
+	b, _ := json.Marshal(m)
+	kind := "image"
+	if subject != nil {
+		kind = "artifact"
+	}
+	return g.add(&Node{Kind: kind, MT: MTArtifact, Body: b, Children: blobs, Subject: subject})
+}
+
+// Schema1 builds a Docker schema1 manifest, optionally inside a JWS envelope in libtrust's pretty form (the
+// signature itself is not genuine; no client or registry model here verifies it)
+func (g *Graph) Schema1(layers []*Node, signed bool, note string) *Node {
+	fs := []map[string]string{}
+	hs := []map[string]string{}
+	for i, l := range layers {
+		fs = append(fs, map[string]string{"blobSum": l.Digest})
+		hs = append(hs, map[string]string{"v1Compatibility": fmt.Sprintf(`{"id":"%s-%d"}`, note, i)})
+	}
+	m := map[string]any{"schemaVersion": 1, "name": "proj/app", "tag": "v1", "architecture": "amd64", "fsLayers": fs, "history": hs}
+	b, _ := json.MarshalIndent(m, "", "   ")
+	mt := MTSchema1
+	if signed {
+		mt = MTSchema1S
+		i := len(b) - 2 // the payload ends in "\n}"
+		b64 := func(x []byte) string { return strings.TrimRight(base64.URLEncoding.EncodeToString(x), "=") }
+		prot := b64([]byte(fmt.Sprintf(`{"formatLength":%d,"formatTail":"%s","time":"2026-01-01T00:00:00Z"}`, i, b64(b[i:]))))
+		b = []byte(string(b[:i]) + fmt.Sprintf(",\n   \"signatures\": [\n      {\n         \"header\": {\"alg\": \"ES256\"},\n         \"signature\": \"c2ln\",\n         \"protected\": \"%s\"\n      }\n   ]\n}", prot))
+	}
+	return g.add(&Node{Kind: "image", MT: mt, Body: b, Children: layers})
+}
+
 func (g *Graph) Image(docker bool, config *Node, layers []*Node, foreign map[int]bool, subject *Node, note string) *Node {
 	mt := MTImage
 	if docker {
@@ -73,14 +141,15 @@ func (g *Graph) Image(docker bool, config *Node, layers []*Node, foreign map[int
 	}
 	ls := []desc{}
 	for i, l := range layers {
-		x := d(l)
+		x := g.dd(l)
 		if foreign[i] {
+			x.Data = nil
 			x.URLs = []string{"http://external.example/" + l.Digest}
 			x.MediaType = "application/vnd.docker.image.rootfs.foreign.diff.tar.gzip"
 		}
 		ls = append(ls, x)
 	}
-	m := map[string]any{"schemaVersion": 2, "mediaType": mt, "config": d(config), "layers": ls}
+	m := map[string]any{"schemaVersion": 2, "mediaType": mt, "config": g.dd(config), "layers": ls}
 	if note != "" {
 		m["annotations"] = map[string]string{"note": note}
 	}
@@ -107,7 +176,7 @@ func (g *Graph) Index(docker bool, children []*Node, note string) *Node {
 	}
 	ms := []desc{}
 	for i, c := range children {
-		x := d(c)
+		x := g.dd(c)
 		if c.Kind != "blob" {
 			x.Platform = map[string]string{"os": "linux", "architecture": []string{"amd64", "arm64", "arm", "386", "ppc64le", "s390x"}[i%6]}
 		}
@@ -157,8 +226,9 @@ func (g *Graph) Load(r *memreg.Registry, repo, tag string) {
 }
 
 // Random builds a graph of the requested shape.
-func Random(r *lib.Rand, uniq string) *Graph {
-	g := &Graph{}
+func Random(r *lib.Rand, uniq string) *Graph { return randomInto(&Graph{}, r, uniq) }
+
+func randomInto(g *Graph, r *lib.Rand, uniq string) *Graph {
 	nb := 2 + r.Intn(4)
 	var blobs []*Node
 	for i := 0; i < nb; i++ {
@@ -236,6 +306,47 @@ func Random(r *lib.Rand, uniq string) *Graph {
 		}
 	}
 	return g
+}
+
+// RandomX: the shapes Random does not draw - descriptors with inline data, OCI artifact manifests (as root and as an
+// index entry), Docker schema1 images, unsigned and signed
+func RandomX(r *lib.Rand, uniq string) *Graph {
+	switch r.Intn(5) {
+	case 0, 1: // an ordinary graph whose descriptors carry small content inline
+		g := &Graph{Inline: 60, rnd: lib.NewRand(r.U64())}
+		return randomInto(g, r, uniq)
+	case 2: // artifact manifest, alone or inside an index next to an image
+		g := &Graph{}
+		b1 := g.Blob([]byte(uniq+"-sbom-1"), "application/vnd.example.data")
+		b2 := g.Blob([]byte(uniq+"-sbom-2"), "application/vnd.example.data")
+		a := g.Artifact([]*Node{b1, b2}[:1+r.Intn(2)], nil, uniq)
+		if r.Bool() {
+			g.Root = a
+		} else {
+			cfg := g.Blob([]byte(`{"architecture":"amd64","os":"linux","rootfs":{"type":"layers","diff_ids":[]}}`), MTConfig)
+			img := g.Image(false, cfg, []*Node{g.Blob([]byte(uniq+"-x-layer"), MTLayer)}, nil, nil, uniq)
+			ch := []*Node{img, a}
+			if r.Bool() { // an index entry of a type the client does not know that is a plain blob
+				ch = append(ch, g.Blob([]byte(uniq+"-plain-data"), "application/vnd.example.data"))
+			}
+			g.Root = g.Index(false, ch, uniq)
+		}
+		if r.Bool() { // an artifact-manifest referrer of the root
+			g.Refs = append(g.Refs, g.Artifact([]*Node{g.Blob([]byte(uniq+"-ref-blob"), "application/vnd.example.data")}, g.Root, uniq+"-ref"))
+		}
+		return g
+	default: // schema1
+		g := &Graph{}
+		var ls []*Node
+		for i := 0; i < 1+r.Intn(3); i++ {
+			ls = append(ls, g.Blob([]byte(fmt.Sprintf("%s-v1-layer-%d", uniq, i)), MTDockerLy))
+		}
+		if r.Chance(30) {
+			ls = append(ls, ls[0]) // the same layer twice, as schema1 images with empty layers have
+		}
+		g.Root = g.Schema1(ls, r.Bool(), uniq)
+		return g
+	}
 }
 
 func SortedDigests(m map[string]*Node) []string {
